@@ -184,6 +184,8 @@ func (g *G) pattern(paramsBefore []string) string {
 	n := 1 + g.pick(3)
 	if g.chance(0.4) {
 		n = 1
+	} else if g.chance(0.2) {
+		n = 4 + g.pick(5) // long patterns
 	}
 	var sb strings.Builder
 	for i := 0; i < n; i++ {
